@@ -2668,6 +2668,10 @@ class Matrix:
             name = sub_element[0]
             params = tuple(REGEX_TRANSFORM_PARAMETER.findall(sub_element[1]))
             params = [mag + units for mag, units in params]
+            if len(params) == 0 or (
+                SVG_TRANSFORM_MATRIX == name and len(params) < 6
+            ):
+                continue  # malformed function: too few numeric arguments.
             if SVG_TRANSFORM_MATRIX == name:
                 params = map(float, params)
                 self.pre_cat(*params)
